@@ -28,10 +28,16 @@ def model_case(draw, model):
         r_ = rows[draw(st.integers(0, len(rows) - 1))]
         r_["b"][draw(st.integers(0, len(r_["b"]) - 1))] = draw(st.sampled_from([0.0, 1e-6, 1e-9, 1e-12]))
         r_["kind"] = r_["kind"] + "+dark-entry"
+    if model == "poisson" and draw(st.integers(0, 3)) == 0:
+        rows.append(dict(rows[-1], b=list(rows[-1]["b"]), kind=rows[-1]["kind"] + "+repeat"))      # the same target again (other weights)
     W = None
     if model == "poisson" and draw(st.booleans()):
-        W = draw(gens.array((len(sysd["A"]),), 0.3, 3.0, styles=("raw", "int")))
-        W = np.maximum(np.asarray(W), 0.3).tolist()
+        if draw(st.integers(0, 2)) == 0:
+            # per-sample weights (one row per target): through the function, or registered with the targets
+            W = np.maximum(np.asarray(draw(gens.array((len(rows), len(sysd["A"])), 0.3, 3.0, styles=("raw",)))).reshape(len(rows), -1), 0.3).tolist()
+        else:
+            W = draw(gens.array((len(sysd["A"]),), 0.3, 3.0, styles=("raw", "int")))
+            W = np.maximum(np.asarray(W), 0.3).tolist()
     return dict(system=sysd, rows=rows, W=W, entry=draw(st.sampled_from(["function", "estimator"])),
                 accuracy=draw(st.sampled_from(["default", "high"])),
                 # how many targets are stacked into one problem: a performance setting only (Poisson / gaussian)
@@ -54,6 +60,12 @@ def _arg(B, case):
 def run_model(sv, B, W, model, entry, **opt):
     from dreye.api.optimize import lsq_linear as L
 
+    if entry == "estimator" and W is not None and np.ndim(W) == 2:
+        est = sv.make_estimator()
+        est.register_targets(np.array(B, dtype=float), W=np.asarray(W, dtype=float))
+        with unchanged("model", estimator=est):
+            X, Bp = est.fit(B, model=model, **opt)
+        return np.asarray(X), np.asarray(Bp)
     if entry == "estimator":
         if W is not None and int(abs(float(np.sum(B))) * 1e6) % 2 == 1:
             # the receptor weights come with an earlier registration of (fewer) targets; the fit is then asked for explicit ones
@@ -129,9 +141,10 @@ def body_poisson(case):
     with calling(f"poisson fit (batch_size={bs})"):
         X, Bp = run_model(sv, _arg(B, case), W, "poisson", case["entry"], **({} if bs is None else dict(batch_size=bs)))
     common_checks(sv, B, X, Bp, "poisson")
-    w = np.ones(sv.m) if W is None else np.asarray(W, dtype=float)
-    labs = sv.labels() + ["W" if W is not None else "noW", f"entry:{case['entry']}", f"batch:{bs}"] + (["int-typed-targets"] if case.get("int_targets") else [])
+    w_all = np.ones((B.shape[0], sv.m)) if W is None else np.broadcast_to(np.asarray(W, dtype=float), (B.shape[0], sv.m))
+    labs = sv.labels() + [("W2d" if np.ndim(W) == 2 else "W") if W is not None else "noW", f"entry:{case['entry']}", f"batch:{bs}"] + (["int-typed-targets"] if case.get("int_targets") else [])
     for i, (r, b) in enumerate(zip(case["rows"], B)):
+        w = w_all[i]
         xc = np.clip(X[i], sv.lb, np.where(np.isfinite(sv.ub), sv.ub, np.inf))
         f_code = poisson_nll(sv, xc, b, w)
         xb, _ = bvls(sv.Ap, sv.basep, sv.lb, sv.ub, b, None)
